@@ -116,6 +116,8 @@ def typingOps (op : String) (a : List String) : Option String :=
   | "typ.use", _ :: _ => some "ok"
   | "cs.type", [_, sg, _] => (tyArg sg).map fun t => outHex (CallSite.callSiteType t)
   | "api.fix", [_] => some "ok"
+  | "cc.rt", [_] => some "ok"            -- oracle on the implementation: a calling convention given by number is read back as that number
+  | "sig.alias", [_, _, _] => some "ok"  -- oracle on the implementation: a call site spelled with a named signature
   | "rename.ok", [_, _] => some "ok"
   | "edit.as", [_, _] => some "ok"
   | "cs.type", [_, sg, _, _] => (tyArg sg).map fun t => outHex (CallSite.callSiteType t)
